@@ -29,6 +29,8 @@ CmdOpts == {<<"-bin">>, <<"-disasm">>, <<"-msp430">>, <<"-avr8">>, <<"-bogus_q">
             <<"-address">>, <<"-address", "0x1000">>, <<"-address", "zzz">>, <<"-address", "0xffffffff">>,
             <<"-set_pc">>, <<"-set_pc", "0x10">>, <<"-set_pc", "zzz">>,
             <<"-break_io">>, <<"-break_io", "0x20">>, <<"-sim_serial">>, <<"-sim_serial", "1">>, <<"-sim_serial", "1", "in_q.txt">>,
+            <<"-sim_serial", "0x20", "", "/nonexistent_q/out.txt">>, <<"-sim_serial", "0x20", "t.hex", "/nonexistent_q/out.txt">>,
+            <<"-sim_serial", "0x20", "missing_q.txt", "out_q.txt">>, <<"-sim_serial", "0x20", "t.hex", "out_q.txt">>,
             <<"-type">>, <<"-type", "hex">>, <<"-type", "bogus">>}
 Files == {"", "t.hex", "missing_q.hex", "t.bin"}
 CmdLines(n) == IF n = 1 THEN {[opts |-> <<a>>, file |-> f] : a \in CmdOpts, f \in Files}
